@@ -294,8 +294,19 @@ pub fn run_behaviour(pr: Proto, beh: &Beh, inst: &BInst, km: &KeyMat, book: &mut
                         }
                         _ => json!({"res": "unreadable", "key": "-", "payload": [], "nonce": 0, "nseen": 0, "detail": "payload is not a JSON object"}),
                     },
-                    o => json!({"res": "unreadable", "key": "-", "payload": [], "nonce": 0, "nseen": 0,
-                                "detail": format!("built token does not authenticate: {}:{}", o.class(), o.detail())}),
+                    o => {
+                        // diagnose: which of the values set on the builder did the token NOT bind?
+                        let mut alt = "none";
+                        if footer.is_some() && present(pr, Layer::Generic, &tok, km, None, assertion).0.is_ok() {
+                            alt = "nofooter";
+                        } else if assertion.is_some() && present(pr, Layer::Generic, &tok, km, footer, None).0.is_ok() {
+                            alt = "noassertion";
+                        } else if footer.is_some() && assertion.is_some() && present(pr, Layer::Generic, &tok, km, None, None).0.is_ok() {
+                            alt = "neither";
+                        }
+                        json!({"res": "unreadable", "key": "-", "payload": [], "nonce": 0, "nseen": 0, "alt": alt,
+                               "detail": format!("built token does not authenticate: {}:{}", o.class(), o.detail())})
+                    }
                 }
             }
             Out::ErrBuild(d) if d.starts_with("dup:") => {
